@@ -198,3 +198,45 @@ structure Chain (App Msg Coin Resp Error : Type) where
   migrate_contract : App → String → String → Msg → Nat → Except (AnyErr Error) Resp
 
 end RustExtern.Mt
+
+/-! ## The part of `syn`'s type syntax that `extract_return_type` (sylvia-derive/src/utils.rs) walks
+
+Hand-written and trusted: a return type, a type (a path type or anything else), a path with its segments, a segment's name and
+arguments. Identifiers are their text. -/
+namespace RustExtern.SynTy
+
+mutual
+inductive SynType where
+  | Path (tp : TypePath)
+  | Other
+inductive TypePath where
+  | mk (path : Path)
+inductive Path where
+  | mk (segments : List PathSegment)
+inductive PathSegment where
+  | mk (ident : String) (arguments : PathArguments)
+inductive PathArguments where
+  | None
+  | AngleBracketed (a : AngleArgs)
+  | Parenthesized
+inductive AngleArgs where
+  | mk (args : List GenericArgument)
+inductive GenericArgument where
+  | Type (t : SynType)
+  | Other
+end
+
+def TypePath.path : TypePath → Path | .mk p => p
+def Path.segments : Path → List PathSegment | .mk s => s
+def PathSegment.ident : PathSegment → String | .mk i _ => i
+def PathSegment.arguments : PathSegment → PathArguments | .mk _ a => a
+def AngleArgs.args : AngleArgs → List GenericArgument | .mk a => a
+
+inductive ReturnType where
+  | Default
+  | Type (arrow : Unit) (ty : SynType)
+
+/-- `Option::unwrap` -/
+def unwrapOpt {α : Type} : Option α → RustSem.Res α | some a => .ok a | none => .panic
+
+end RustExtern.SynTy
